@@ -56,6 +56,7 @@ def judgeClip (L : Lines) (A : Operand) (rhs : Tok) : String :=
   let cfg :=
     if trivialCase s c then (if s.isEmpty || c.isEmpty then "trivial-empty" else "trivial-boxdisjoint")
     else if ncross = 0 then (if want.isEmpty then "nocross-outside" else "nocross-inside")
+    else if s.all (fun l => l.all fun v => inside c v) then "vertices-inside-crossing"
     else if ncross ≤ 4 then "cross-few" else "cross-many"
   let cls := s!"{lk}-{kindName A}-{cfg}" ++ (if ok then "" else "-outside-quantifier")
   match rhs with
@@ -74,13 +75,20 @@ def judgeClip (L : Lines) (A : Operand) (rhs : Tok) : String :=
           -- emptiness, exactly
           if got.isEmpty ≠ oracleEmpty c s then
             s!"SPEC {cls} " ++ (if got.isEmpty then "empty-result-but-the-line-enters-the-polygon" else "non-empty-result-but-the-line-does-not-enter-the-polygon")
-          else match matchChains (extentOf s c) want got with
-          | some why => s!"SPEC {cls} {why}"
-          | none =>
+          else
+            -- length clause: total length and number of pieces against the oracle's inside intervals
             let lw := (want.map pathLen).foldl (· + ·) 0
             let lg := (got.map pathLen).foldl (· + ·) 0
-            if fabs (lw - lg) > 1e-9 * (1 + lw) then s!"SPEC {cls} total-length want={lw} got={lg}"
-            else s!"OK {cls}"
+            if fabs (lw - lg) > 1e-9 * (1 + lw) || want.length ≠ got.length then
+              s!"SPEC {cls} length-clause total-length want={lw} got={lg} pieces want={want.length} got={got.length}"
+            else
+              -- not only the vertices: the midpoint of every returned segment lies inside or on P (exact)
+              match (got.flatMap pairs).find? (fun e => !insideClosedC c (pointAt e.1 e.2 (1/2))) with
+              | some e => s!"SPEC {cls} returned-segment-leaves-the-polygon midpoint-of ({ratToFloat e.1.x},{ratToFloat e.1.y})-({ratToFloat e.2.x},{ratToFloat e.2.y}) is outside P"
+              | none =>
+                match matchChains (extentOf s c) want got with
+                | some why => s!"SPEC {cls} {why}"
+                | none => s!"OK {cls}"
     | _ => s!"DIFF {cls} result-is-not-a-MultiLineString"
   | _ => s!"DIFF {cls} bad-answer"
 
